@@ -168,7 +168,8 @@ func VerifC04RoundTrip6() {
 	verifrt.Cover("ipv6")
 }
 
-// c04Tail appends root with symbolic letter case and an optional dot.
+// c04Tail appends root with symbolic letter case and 0..2 trailing dots (one
+// is the optional dot of the statement, two make an empty label).
 func c04Tail(b []byte, root string) []byte {
 	for i := 0; i < len(root); i++ {
 		c := root[i]
@@ -182,7 +183,8 @@ func c04Tail(b []byte, root string) []byte {
 		}
 		b = append(b, c)
 	}
-	if verifrt.Bool2() {
+	// no, one (the optional one) or two trailing dots
+	for d := verifrt.Choice(3); d > 0; d-- {
 		b = append(b, '.')
 	}
 
